@@ -41,3 +41,42 @@ func (l *LanguageServer) VerifCacheOrphans() (modules []string, aggregates []str
 	}
 	return modules, aggregates
 }
+
+// VerifAggregateFiles: the source files that have aggregate data in the cache
+func (l *LanguageServer) VerifAggregateFiles() []string {
+	seen := map[string]bool{}
+	out := []string{}
+	for _, as := range l.cache.GetFileAggregates() {
+		for _, a := range as {
+			if f := a.SourceFile(); !seen[f] {
+				seen[f] = true
+				out = append(out, f)
+			}
+		}
+	}
+	return out
+}
+
+// VerifAggregateCounts: number of aggregate entries cached per file
+func (l *LanguageServer) VerifAggregateCounts() map[string]int {
+	out := map[string]int{}
+	for f := range l.cache.GetAllFiles() {
+		n := 0
+		for _, as := range l.cache.GetFileAggregates(f) {
+			n += len(as)
+		}
+		out[f] = n
+	}
+	return out
+}
+
+// VerifAggregateKeys: the index keys (category/title) cached per file
+func (l *LanguageServer) VerifAggregateKeys() map[string][]string {
+	out := map[string][]string{}
+	for f := range l.cache.GetAllFiles() {
+		for k := range l.cache.GetFileAggregates(f) {
+			out[f] = append(out[f], k)
+		}
+	}
+	return out
+}
